@@ -134,7 +134,7 @@ Proof.
   unfold wadd. rewrite wrap64_add_l, wrap64_add_r. f_equal. lia.
 Qed.
 Lemma wsub_wrap_l a b : wsub (wrap64 a) b = wrap64 (a - b).
-Proof. unfold wsub. replace (wrap64 a - b) with (wrap64 a + (- b)) by lia. rewrite wrap64_add_l. f_equal. lia. Qed.
+Proof. unfold wsub. replace (wrap64 a - b) with (wrap64 a + (- b)) by lia. rewrite wrap64_add_l. reflexivity. Qed.
 Lemma ssum_retract_inverse : forall s a b, wrap64 (fst s) = fst s ->
   a_retract sum_sliding_acc (a_update sum_sliding_acc s (a ++ b)) a = a_update sum_sliding_acc s b.
 Proof.
